@@ -369,6 +369,123 @@ func TestVerifC48(t *testing.T) {
 			}
 		}
 	}
+	// ---------------------------------------------------------------- part C: reloads of lighthouse.calculated_remotes
+	// "Inside the configured range" means the range configured NOW: every sequence of 2 or 3 well-formed configurations
+	// (section absent, one range, the same range with another mask, another range, an IPv6 range, both families) is loaded
+	// and then hot-reloaded through config.C.ReloadConfigString; after the last reload addCalculatedRemotes is asked about
+	// overlay addresses that were never asked before and must follow the last configuration only.
+	relCfgs := [][]rng{
+		nil,
+		{{"10.128.1.0/24", []entry{e4a}}},
+		{{"10.128.1.0/24", []entry{e4b}}},
+		{{"10.128.2.0/24", []entry{e4a}}},
+		{{"fd80:0:0:0:1::/80", []entry{e6a}}},
+		{{"10.128.1.0/24", []entry{e4a}}, {"fd80:0:0:0:1::/80", []entry{e6b}}},
+	}
+	relYAML := func(chosen []rng) string {
+		var sb strings.Builder
+		sb.WriteString("lighthouse:\n  interval: 60\n")
+		if chosen != nil {
+			sb.WriteString("  calculated_remotes:\n")
+			for _, r := range chosen {
+				fmt.Fprintf(&sb, "    %q:\n", r.cidr)
+				for _, e := range r.entries {
+					fmt.Fprintf(&sb, "      - mask: %q\n        port: %v\n", e.mask, e.port)
+				}
+			}
+		}
+		return sb.String()
+	}
+	relVpns := []netip.Addr{A("10.128.1.9"), A("10.128.2.9"), A("10.128.7.9"), A("fd80::1:0:0:9"), A("fd80::2:0:0:9")}
+	var relSeqs, relProduced, relNotProduced int64
+	var relRun func(seq []int)
+	relRun = func(seq []int) {
+		if len(seq) >= 2 {
+			relSeqs++
+			cfg := config.NewC(c48Log)
+			var names []string
+			for _, i := range seq {
+				names = append(names, strings.ReplaceAll(strings.TrimSpace(relYAML(relCfgs[i])), "\n", " "))
+			}
+			d0 := map[string]any{"configurations_in_order": names}
+			if err := cfg.LoadString(relYAML(relCfgs[seq[0]])); err != nil {
+				c.Broken("part C: initial configuration does not load: %v", err)
+			}
+			lh, err := NewLightHouseFromConfig(ctx, c48Log, cfg, cs, nil, nil)
+			if err != nil {
+				report("lighthouse.calculated_remotes: a well-formed same-family configuration is refused", 1, d0)
+				return
+			}
+			lh.ifce = &mockEncWriter{}
+			for _, i := range seq[1:] {
+				if err := cfg.ReloadConfigString(relYAML(relCfgs[i])); err != nil {
+					c.Broken("part C: reload text does not parse: %v", err)
+				}
+			}
+			evals++
+			last := relCfgs[seq[len(seq)-1]]
+			for _, vpn := range relVpns {
+				var want []netip.AddrPort
+				for _, r := range last {
+					p := netip.MustParsePrefix(r.cidr)
+					if p.Addr().Is4() != vpn.Is4() || !c48Contains(p, vpn) {
+						continue
+					}
+					for _, e := range r.entries {
+						mp := netip.MustParsePrefix(e.mask)
+						w := 32
+						if !vpn.Is4() {
+							w = 128
+						}
+						port := 0
+						fmt.Sscan(fmt.Sprint(e.port), &port)
+						want = append(want, netip.AddrPortFrom(c48BigToAddr(c48Splice(mp.Addr(), vpn, mp.Bits(), w), w), uint16(port)))
+					}
+				}
+				got := lh.addCalculatedRemotes(vpn)
+				evals++
+				var stored []netip.AddrPort
+				if rl := lh.addrMap[vpn]; rl != nil {
+					if ch := rl.cache[myNet.Addr()]; ch != nil {
+						if ch.v4 != nil {
+							for _, r := range ch.v4.reported {
+								stored = append(stored, netip.AddrPortFrom(c48V4Addr(r), uint16(r.Port)))
+							}
+						}
+						if ch.v6 != nil {
+							for _, r := range ch.v6.reported {
+								stored = append(stored, netip.AddrPortFrom(c48V6Addr(r), uint16(r.Port)))
+							}
+						}
+					}
+				}
+				d := map[string]any{"configurations_in_order": names, "overlay_addr": vpn.String(), "returned": got, "stored": fmt.Sprint(stored), "reference_for_the_last_configuration": fmt.Sprint(want)}
+				if len(want) == 0 {
+					relNotProduced++
+					if got || len(stored) > 0 {
+						report("addCalculatedRemotes after a reload: produces a remote for an overlay address outside every range of the CURRENT configuration", len(seq), d)
+					}
+					continue
+				}
+				relProduced++
+				distinct["lhreload|"+strings.Join(names, "|")+"|"+vpn.String()] = struct{}{}
+				if !got || !c48SameSet(stored, want) {
+					report("addCalculatedRemotes after a reload: stored remotes are not the splice of the CURRENT configuration's masks with the overlay address", len(seq), d)
+				}
+			}
+		}
+		if len(seq) == 3 {
+			return
+		}
+		for i := range relCfgs {
+			relRun(append(append([]int{}, seq...), i))
+		}
+	}
+	relRun(nil)
+	c.Require(relProduced > 0 && relNotProduced > 0, "reload part: produced / not produced: %d / %d", relProduced, relNotProduced)
+	c.Set("reload_sequences_of_2_or_3_configurations", relSeqs)
+	c.Set("reload_lookups_producing", relProduced)
+	c.Set("reload_lookups_not_producing", relNotProduced)
 	c.Require(produced > 0 && notProduced > 0, "lighthouse part: produced / not produced: %d / %d", produced, notProduced)
 	c.Require(cfgRefused > 0 && cfgLoaded > 0, "lighthouse part: configurations refused / loaded: %d / %d", cfgRefused, cfgLoaded)
 	c.Set("lighthouse_configurations_loaded", cfgLoaded)
